@@ -3,8 +3,9 @@
 // read-only operations, and the 2.x table API read functions.
 //
 //   autocommit                 -> 1|0   sqlite3_get_autocommit of the library's connection
-//   fullobs [verbose]          -> api=<h> uuid=<h> raw=<h> tables=<db.tbl:h,...>   (verbose: the texts;
-//                                 api = every observer's answer on every crate / track, UUID masked)
+//   fullobs [verbose]          -> api=<h> held=<h> uuid=<h> raw=<h> tables=<db.tbl:h,...>   (verbose: the texts;
+//                                 api = every observer's answer on every crate / track obtained from the
+//                                 database, UUID masked; held = the same through the handles the script holds)
 //   observers [prefix]         -> one entry per read-only operation (of database, crate, track; on every
 //                                 crate / track of the current state), each applied twice:
 //                                 <name>:<shapes>:<changes-delta>:<stable 0|1>:<files same|differs|->
@@ -13,6 +14,7 @@
 //                                 c commit, k rollback, s savepoint; '-' = no statement)
 //                                 plus raw=<same|differs> n=<crates>+<tracks> answers=<h>
 //   tableapi.reads [prefix]    -> the same for the 2.x table API (on-disk 2.x libraries)
+//   tableapi.touch <n>         -> table-API setters on the columns the high-level API never writes (every track)
 //   staticops                  -> database_exists / load_database / create_or_load_database (existing library)
 //                                 / engine_library::exists as observers of the directory; the SHA-256 of the
 //                                 directory is taken around every single one
@@ -423,6 +425,31 @@ std::string api_text()
     return o;
 }
 
+std::string held_text()
+{
+    std::string o;
+    // through the handles the script itself holds (the very objects the calls of
+    // the history were made on — state kept in a handle shows here and nowhere
+    // else); handles of removed crates / tracks are skipped
+    for (auto& kv : S.crates)
+    {
+        auto& c = kv.second;
+        if (safe([&] { return std::string(c.is_valid() ? "1" : "0"); }) != "1") continue;
+        o += "held crate " + kv.first + ":";
+        for (auto& ob : crate_observers()) o += std::string(" ") + ob.first + "=" + safe([&] { return ob.second(c); });
+        o += "\n";
+    }
+    for (auto& kv : S.tracks)
+    {
+        auto& t = kv.second;
+        if (safe([&] { return std::string(t.is_valid() ? "1" : "0"); }) != "1") continue;
+        o += "held track " + kv.first + ":";
+        for (auto& ob : track_observers()) o += std::string(" ") + ob.first + "=" + safe([&] { return ob.second(t); });
+        o += "\n";
+    }
+    return o;
+}
+
 // raw dump of every table of every attached database, through the C API
 std::vector<std::pair<std::string, std::string>> raw_tables(sqlite3* h)
 {
@@ -571,12 +598,13 @@ DJV_CMD(autocommit, "autocommit")
 DJV_CMD(fullobs, "fullobs")
 {
     bool verbose = a.size() > 1 && a[1] == "verbose";
-    std::string api, uuid;
+    std::string api, held, uuid;
     std::vector<std::pair<std::string, std::string>> tabs;
     {
         quiet_guard q;
         g_mask_uuid = true;
         api = api_text();
+        held = held_text();
         g_mask_uuid = false;
         uuid = safe([] { return hs(DB().uuid()); });
         tabs = raw_tables(main_handle());
@@ -590,12 +618,12 @@ DJV_CMD(fullobs, "fullobs")
     if (verbose)
     {
         // single line: newlines -> " | "
-        std::string t = api + raw;
+        std::string t = api + held + raw;
         std::string o;
         for (char ch : t) o += ch == '\n' ? std::string(" | ") : std::string(1, ch);
         return o;
     }
-    return "api=" + hs(api) + " uuid=" + uuid + " raw=" + hs(raw) + " tables=" + per;
+    return "api=" + hs(api) + " held=" + hs(held) + " uuid=" + uuid + " raw=" + hs(raw) + " tables=" + per;
 }
 
 DJV_CMD(dirsha, "dirsha")
@@ -789,6 +817,41 @@ std::string oi(const std::optional<T>& v)
 }
 std::string od(const std::optional<double>& v) { return fo(v); }
 }  // namespace
+
+// tableapi.touch <n>: through the table API of the on-disk 2.x library, give every track values in the columns
+// the high-level API never writes (label, remixer, uri, streaming source, played flags, ...), derived from <n>,
+// so that the table-API getters are observed on non-default rows too.
+DJV_CMD(tableapi_touch, "tableapi.touch")
+{
+    if (S.dir.empty() || !is_v2()) throw bad_command{"needs an on-disk 2.x library"};
+    auto n = parse_i64(a.at(1));
+    handles_guard hg;
+    quiet_guard q;
+    auto lib = ev2::engine_library::load(S.dir);
+    auto tt = lib.track();
+    size_t touched = 0;
+    for (auto id : tt.all_ids())
+    {
+        auto k = n + id;
+        tt.set_label(id, k % 3 ? std::make_optional("label " + std::to_string(k)) : std::nullopt);
+        tt.set_remixer(id, k % 2 ? std::make_optional("remixer " + std::to_string(k)) : std::nullopt);
+        tt.set_uri(id, k % 4 ? std::make_optional("file:///music/" + std::to_string(k) + ".mp3") : std::nullopt);
+        tt.set_streaming_source(id, k % 5 ? std::nullopt : std::make_optional(std::string("svc")));
+        tt.set_album_art(id, k % 2 ? std::make_optional("art" + std::to_string(k)) : std::nullopt);
+        tt.set_is_played(id, k % 2 == 0);
+        tt.set_played_indicator(id, k % 3 ? std::make_optional<int64_t>(k * 7919) : std::nullopt);
+        tt.set_is_available(id, k % 4 != 0);
+        tt.set_is_beat_grid_locked(id, k % 3 == 0);
+        tt.set_pdb_import_key(id, k % 7);
+        tt.set_third_party_source_id(id, k % 3 == 1 ? std::make_optional<int64_t>(k) : std::nullopt);
+        tt.set_streaming_flags(id, k % 4);
+        tt.set_explicit_lyrics(id, k % 2 == 1);
+        tt.set_time_last_played(id, k % 2 ? std::make_optional(std::chrono::system_clock::time_point{std::chrono::seconds{1600000000 + k}})
+                                          : std::nullopt);
+        ++touched;
+    }
+    return "tracks=" + std::to_string(touched);
+}
 
 DJV_CMD(tableapi_reads, "tableapi.reads")
 {
